@@ -40,7 +40,7 @@ SITES = ['reindex_fill', 'shift_fill', 'series_concat', 'frame_concat_rows', 'fr
          'assign_array', 'assign_frame_element', 'fillna_element', 'fillna_series', 'from_records', 'series_from_list', 'row_consolidation',
          'values_2d', 'iter_tuple', 'index_append', 'index_union', 'from_overlay', 'frame_reindex_fill', 'frame_shift_fill',
          'fillna_forward_axis1', 'unset_index', 'insert_fill', 'series_from_dict', 'frame_from_dict_records', 'index_from_list',
-         'fillna_forward_axis1_block', 'fillna_backward_axis1_block', 'assign_frame_into_block', 'series_insert', 'grown_frame_rows']
+         'fillna_forward_axis1_block', 'fillna_backward_axis1_block', 'assign_frame_into_block', 'series_insert', 'grown_frame_rows', 'frame_overlay', 'pivot_stack_group']
 
 
 TECHNIQUE = 'runtime monitoring: loss oracle (every supplied element must be read back equal) at 30 merge sites x the dtype-pair matrix, with arranged Python-value inputs and multi-column block sites'
@@ -423,6 +423,48 @@ def run_site(case):
                 ga, gb = t[0], t[1]
             o.cell(av[i], ga, 'a')
             o.cell(bv[i], gb, 'b')
+    elif site == 'frame_overlay':
+        # first frame: two columns of dtype a, both partially missing, stored as one 2-D block or as two 1-D blocks; the second frame
+        # supplies a column of dtype a and a column of dtype b: every filled cell must hold exactly the supplied element
+        from static_frame.core.type_blocks import TypeBlocks
+        ma = _missing_for(a)
+        if ma is None:
+            return None
+        mask = case.get('mask') or [False] * 9
+        aw = av[1:] + av[:1]
+        col1 = [av[0], ma, av[2]]
+        col2 = [ma, av[1], ma]
+        if mask[0]:
+            block = np.empty((n, 2), dtype=np.dtype(a))
+            block[:, 0] = V.to_array(col1, a)
+            block[:, 1] = V.to_array(col2, a)
+            block.flags.writeable = False
+            blocks = [block]
+        else:
+            blocks = [V.to_array(col1, a), V.to_array(col2, a)]
+            for x in blocks:
+                x.flags.writeable = False
+        f1 = sf.Frame(TypeBlocks.from_blocks(blocks), index=list('xyz'), columns=['p', 'q'])
+        fills = {'p': (aw, a, 'a'), 'q': (bv, b, 'b')} if not mask[1] else {'p': (bv, b, 'b'), 'q': (aw, a, 'a')}
+        f2 = sf.Frame.from_items([(lab, V.to_array(vals, dt)) for lab, (vals, dt, _) in fills.items()], index=list('xyz'))
+        r = sf.Frame.from_overlay([f1, f2])
+        for lab, col in (('p', col1), ('q', col2)):
+            vals, dt, role = fills[lab]
+            for i, rl in enumerate('xyz'):
+                if canon.is_missing(col[i]):
+                    if not canon.is_missing(vals[i]):
+                        o.cell(vals[i], r.loc[rl, lab], role)
+                else:
+                    o.cell(col[i], r.loc[rl, lab], 'a')
+    elif site == 'pivot_stack_group':
+        # two columns under one outer label, dtypes a and b: stacking the inner depth puts both into one result column
+        order = (('x', av, a, 'a'), ('y', bv, b, 'b')) if not (case.get('mask') or [False, False, False])[2] else (('x', bv, b, 'b'), ('y', av, a, 'a'))
+        f = sf.Frame.from_items([(('g', inner), V.to_array(vals, dt)) for inner, vals, dt, _ in order], index=list('rst'),
+                                columns_constructor=sf.IndexHierarchy.from_labels)
+        r = f.pivot_stack(-1)
+        for inner, vals, dt, role in order:
+            for i, rl in enumerate('rst'):
+                o.cell(vals[i], r.loc[(rl, inner), 'g'], role)
     elif site == 'unset_index':
         if any(canon.is_missing(v) for v in av):
             return None
